@@ -1266,7 +1266,13 @@ class RewriteAtQuery(NodeTransformer):
             and node._location == self.search
         ):
             self.replaced = True
-            return self.replacement_node
+            # A function parameter that replaces a class attribute / variable becomes a statement
+            return (
+                emit_ann_assign(self.replacement_node)
+                if isinstance(node, (AnnAssign, Assign))
+                and isinstance(self.replacement_node, ast.arg)
+                else self.replacement_node
+            )
         else:
             return NodeTransformer.generic_visit(self, node)
 
